@@ -52,3 +52,29 @@ Lemma api_refines_atomic : forall (H : bytes -> N) (cf : cfg) (ops : list (op by
     let a := arun H cf ainit l in let s := exec H cf init ops in
     a_disk a = disk s /\ a_mem a = mem s /\ forall name, aview a name = view_of s name.
 Proof. intros H cf ops Hs Hm Hrf. exact (C01_atomic.api_refines_atomic H cf Hm ops Hrf). Qed.
+
+(* the store is not vacuously safe: matching bytes are accepted and become readable *)
+Lemma matching_create_visible : forall (H : bytes -> N) (cf : cfg) (s : st) (name : N) (w : stream bytes),
+  s_err w = false -> valid name = true -> H (sdata w) = name -> read s name = None ->
+  snd (step H cf s (Create name w)) = OOk /\ read (fst (step H cf s (Create name w))) name = Some (sdata w).
+Proof.
+  intros H cf s name w He Hv Hh Hr. cbn [step]. rewrite He. unfold move_in, verify_ok.
+  rewrite Hv, Hh, N.eqb_refl, orb_true_r. cbn [andb negb].
+  unfold read, view_of in Hr.
+  destruct (alookup name (mem s)) eqn:Em; [discriminate|].
+  unfold has. destruct (alookup name (disk s)) eqn:Ed; [discriminate|].
+  cbn. split; [reflexivity|]. unfold read, view_of. cbn. rewrite Em, N.eqb_refl. reflexivity.
+Qed.
+
+Lemma matching_refresh_memory_visible : forall (H : bytes -> N) (cf : cfg) (s : st) (name stat : N) (w1 w2 : stream bytes) (pl : Z),
+  c_mem cf = true -> s_err w1 = false -> valid name = true -> H (sdata w1) = name ->
+  len (sdata w1) = stat -> (0 < pl)%Z -> alookup name (mem s) = None ->
+  let r := step H cf s (Refresh name true stat w1 w2 pl) in
+  snd r = OOk /\
+  view_of (fst r) name = mkview (Some (sdata w1)) (Some (len (sdata w1))) (Some (name, sdata w1, pl)).
+Proof.
+  intros H cf s name stat w1 w2 pl Hm He Hv Hh Hl Hp Ha. subst stat. cbn zeta. cbn [step].
+  unfold verify_ok, has. rewrite Hm, He, Hv, Hh, Ha, !N.eqb_refl, !orb_true_r.
+  assert (Hp' : (0 <? pl)%Z = true) by now apply Z.ltb_lt. rewrite Hp'. cbn [andb negb].
+  cbn. split; [reflexivity|]. unfold view_of. cbn. now rewrite N.eqb_refl.
+Qed.
